@@ -722,8 +722,9 @@ def c15(run):
 def c16(run):
     n = 3 if run.tier == "quick" else 4
     jobs = [dict(module="MC_Api", cfg=api_cfg("history", "{1}", True, n), name="MC_Api_hist", timeout=3000, workers=4),
-            dict(module="MC_Api", cfg=api_cfg("history", "{1}", False, min(n, 3)), name="MC_Api_histn", timeout=3000, workers=4)]
-    sts = run.tlc_many(jobs, parallel=2)
+            dict(module="MC_Api", cfg=api_cfg("history", "{1}", False, min(n, 3)), name="MC_Api_histn", timeout=3000, workers=4),
+            dict(module="MC_Api", cfg=api_cfg("historyd", "{1}", True, n), name="MC_Api_histd", timeout=3000, workers=4)]
+    sts = run.tlc_many(jobs, parallel=3)
     for st in sts:
         path, cnt = run.records(st)
         run.replay("api", path, name="api-" + st["cfg"], timeout_ms=8000)
@@ -732,6 +733,8 @@ def c16(run):
     return vp.finish(run, "model_checking",
                      "every history of up to %d operations over {String, Response} x {ok, failing, missing page} and "
                      "EvaluateString (ok, failing), EvaluateFile, under 4 configurations with and without a custom error "
+                     "page; histories over operations that differ in the shape of their data (two struct types sharing a "
+                     "name, one template rendered with a string / array / integer receiver) "
                      "page (TLC checks SoloEq and RenderFramesState on each); replayed on the real code: every result "
                      "must equal the result of the same operation issued first in a fresh state, and the package state "
                      "snapshot, the loaded programs and the data must be unchanged after every step; API traces "
